@@ -3091,6 +3091,100 @@ def _success_only_reads(fi, h):
     return sorted(out, key=lambda t: (getattr(t[1], 'lineno', 0), getattr(t[1], 'col_offset', 0)))
 
 
+def _depends_on_peripheral_only(fi, e, pn, depth=0):
+    """The first local read by ``e`` that is neither (derived from) the peripheral at hand -- names in ``pn`` -- nor a field of the
+    meta application that this function never assigns (configuration); None when there is none."""
+    for x in ast.walk(e):
+        if not (isinstance(x, ast.Name) and isinstance(x.ctx, ast.Load)) or x.id not in _local_names(fi) or x.id in pn:
+            continue
+        par = fi.mod.parents.get(x)
+        if x.id in ('self', 'cls') and x.id in fi.params()[:1] and isinstance(par, ast.Attribute) and par.value is x and not any(
+                isinstance(y, ast.Attribute) and y.attr == par.attr and isinstance(y.ctx, (ast.Store, ast.Del)) for y in ast.walk(fi.node)):
+            continue
+        v = _single_assignment(fi, x.id) if depth < 3 else None
+        if v is not None and not _maybe_mutated(fi, x.id) and _depends_on_peripheral_only(fi, v, pn, depth + 1) is None:
+            continue          # a name for something computed from the peripheral (and never changed afterwards)
+        return x
+    return None
+
+
+_READ_ONLY_METHODS = {'get', 'keys', 'items', 'values', 'copy', 'index', 'count', 'startswith', 'endswith', 'lower', 'upper', 'strip', 'split', 'join',
+                      'format', 'isdisjoint', 'issubset', 'issuperset', 'union', 'intersection', 'difference'}
+
+
+def _maybe_mutated(fi, name):
+    """The object the local ``name`` holds may change after it was bound: a method other than the read-only ones of the builtin
+    containers / texts is called on it, one of its slots / attributes is stored, it is the target of an augmented
+    assignment, or it is handed to a call (which may keep / change it)."""
+    mod = fi.mod
+    for x in ast.walk(fi.node):
+        if not (isinstance(x, ast.Name) and x.id == name):
+            continue
+        par = mod.parents.get(x)
+        if isinstance(x.ctx, ast.Store):
+            if isinstance(par, ast.AugAssign):
+                return True
+            continue
+        if isinstance(par, ast.Attribute) and par.value is x:
+            gp = mod.parents.get(par)
+            if isinstance(par.ctx, (ast.Store, ast.Del)):
+                return True
+            if isinstance(gp, ast.Call) and gp.func is par and par.attr not in _READ_ONLY_METHODS:
+                return True
+        elif isinstance(par, ast.Subscript) and par.value is x and isinstance(par.ctx, (ast.Store, ast.Del)):
+            return True
+        elif isinstance(par, ast.Call) and any(x is a for a in par.args) and not (
+                isinstance(par.func, ast.Name) and par.func.id in KEY_ONLY | SCALAR_CALLS | {'dict', 'getattr', 'hasattr', 'isinstance', 'callable', 'type'}):
+            return True
+        elif isinstance(par, ast.keyword):
+            return True
+    return False
+
+
+def _section_conditions(links):
+    """[(condition, function, the local it reads)]: the conditions -- inside the loop over the peripherals, down to the
+    protected call -- under which the call is made and that read something else than the peripheral at hand (what an
+    earlier section left in the shared context, a flag, a counter).  ``links``: (function, node) from the view down to the
+    call, through the helpers that make it."""
+    out = []
+    pn, started = set(), False
+    for j, (lf, ln) in enumerate(links):
+        loops = [l for l in _loops_around(lf, ln) if _iter_mentions(lf, l.iter, 'peripherals')]
+        pn = _peripheral_elements(lf, pn)
+        base = set()
+        if loops and not started:
+            started = True
+            outer = loops[-1]
+            anchor_stmt = outer if isinstance(outer, ast.For) else stmt_of(lf.mod, outer)
+            try:
+                base = set((norm(t), p) for t, p in conds(lf, anchor_stmt))
+            except AnalysisError:
+                base = set()
+        if started:
+            for t, p in expr_conds(lf, ln):
+                if (norm(t), p) in base or isinstance(t, ast.BoolOp):
+                    continue
+                x = _depends_on_peripheral_only(lf, t, pn)
+                if x is not None:
+                    out.append((t, lf, x))
+        # the peripheral handed on to the helper of the next link
+        if j + 1 < len(links) and isinstance(ln, ast.Call):
+            nxt = links[j + 1][0]
+            passed = set()
+            for skip in (1, 0):
+                b = bind_args(nxt, skip, ln)
+                if b is not None:
+                    passed = set(p for p, x in b.items() if isinstance(x, ast.Name) and x.id in pn)
+                    if passed or skip == 0:
+                        break
+            if isinstance(ln.func, ast.Attribute) and isinstance(ln.func.value, ast.Name) and ln.func.value.id in pn and nxt.params():
+                passed.add(nxt.params()[0])          # ``<peripheral>.method(..)``: its ``self``
+            pn = passed
+        else:
+            pn = set()
+    return out
+
+
 def _repeated_lookups(fi, h):
     """Subscript loads in the handler that repeat, letter for letter, a subscript load of the protected block (what failed
     there fails again here, now outside any protection), unless a ``try`` nested in the handler catches the lookup error."""
@@ -3193,6 +3287,14 @@ def _r18c(rep, repo, meta):
                         continue
                 ok = True
         rep.check('R18.c', fkey(anchor, c) + '::per section', ok, 'handled per peripheral' if ok else 'not handled per peripheral', fi.mod, c)
+        # .. and whether it runs depends on the peripheral alone: a section that can be computed is computed, whatever
+        # happened to the others (the contexts of one group are merged: "this one failed" there means "some of them did")
+        dep = _section_conditions(links)
+        rep.check('R18.c', fkey(anchor, c) + '::computed for every peripheral', not dep,
+                  'inside the loop over the peripherals the call is unconditional (or depends on the peripheral at hand only)' if not dep else
+                  'the peripheral call %s is made only under the condition %s, which reads %s -- not the peripheral at hand but what other '
+                  'sections left behind: a section that can be computed is dropped because another one could not'
+                  % (short(c, 40), short(dep[0][0], 40), dep[0][2].id), dep[0][1].mod if dep else fi.mod, dep[0][0] if dep else c)
 
     for anchor, wanted, floor in anchors:
         inj = _inject_calls(repo, anchor, wanted, views=views)
